@@ -67,24 +67,20 @@ class PermutationProduct(tuple):
                 if space not in links:
                     links.append(space)
 
-        if len(links) == 0:  # no links, all spaces separated
-            linked_spaces = []
-        elif len(links) == 1:  # exactly 2 spaces are linked
-            linked_spaces = links
-        else:  # more than 2 spaces linked: either ov, ox or ov, xy
-            treated = set()
-            linked_spaces = []
-            for i, linked_sp in enumerate(links):
-                if i in treated:
-                    continue
-                linked = linked_sp.copy()
-                for other_i in range(i+1, len(links)):
-                    if other_i in treated:
-                        continue
-                    if linked_sp & links[other_i]:
-                        linked.update(links[other_i])
-                        treated.add(other_i)
-                linked_spaces.append(linked)
+        # merge all links that share a space (directly or through a chain of
+        # other links: ov, vx, xy -> ovxy) until the linked spaces are
+        # disjoint
+        linked_spaces = []
+        for link in links:
+            linked = link.copy()
+            disjoint = []
+            for other_linked in linked_spaces:
+                if linked & other_linked:
+                    linked.update(other_linked)
+                else:
+                    disjoint.append(other_linked)
+            disjoint.append(linked)
+            linked_spaces = disjoint
 
         # sort them in groups that can be treated independently
         ret = {}
